@@ -17,8 +17,8 @@ func init() {
 		Rule: "abstract paths (harness' own syntax trees over every node kind, with keys/strings/variables over ASCII, Latin-1, BMP and astral code points, keywords as keys, numeric literals over the boundary grid) x random spellings built only from the documented alternatives " +
 			"(separators incl. comments and none, keyword case, bare/quoted/escaped keys, \\b \\f \\n \\r \\t \\v \\xNN \\uNNNN surrogate pairs \\u{N..}, decimal/hex/octal/binary/underscore/exponent/.5/5. numbers, != vs <>, redundant and minimal parentheses); " +
 			"the operator-pair precedence matrix and the last-token matrix are enumerated exhaustively. Oracle: the abstract tree the text was spelled from. Non-trivial: the spelling differs from the canonical one; distinct by spelled text",
-		Run:    runC03,
-		Replay: replayC03,
+		Run:          runC03,
+		Replay:       replayC03,
 		MinExercised: map[string]int64{"accept": 10000, "tree": 10000, "lasttoken": 500, "ispredicate": 10000, "precedence": 300},
 		Assumptions: []string{
 			"only spellings the documentation permits are generated (a conservative table decides where a separator may be omitted); sign folding of numeric literals is normalised on the abstract side",
